@@ -493,9 +493,8 @@ def r3(ctx, cfg):
         ctx.ob(R, key, "missing-delegation-is-an-error", ok, "update_stake(sub) does not reject a missing delegation", fn=f, sample="shares.ok_or_else(..)?")
 
 
-def r4(ctx, cfg):
+def r4(ctx, cfg, R="C14.R4", parts=("Delegate", "Undelegate", "Redelegate")):
     F, P = cfg.facts, cfg.prov
-    R = "C14.R4"
     f = ctx.need_fn(R, EXEC)
     if f is None:
         return
@@ -504,69 +503,72 @@ def r4(ctx, cfg):
     def msgf(o, name):
         return contains(o, lambda x: is_param_field(x, "msg", name))
 
-    # Delegate
-    adds = [(b, t) for b, t in q.calls(f, SK + "add_stake") if _arm(P, f, b) == "Delegate"]
-    sends = [(b, t) for b, t in q.calls(f, ("app::CosmosRouter", "execute")) if _arm(P, f, b) == "Delegate"]
-    ok = len(adds) == 1 and len(sends) == 1
-    ctx.ob(R, EXEC, "Delegate-shape", ok, "Delegate must add stake once and move funds once", fn=f, sample="add_stake + router.execute(BankMsg::Send)")
-    if ok:
-        a = P.call_args(f, adds[0][1], adds[0][0])
-        ctx.ob(R, EXEC, "Delegate-add_stake(sender, validator, amount)", is_param(a[4], "sender") and msgf(a[5], "validator") and msgf(a[6], "amount"),
-               "add_stake(%s, %s, %s)" % (fmt(a[4]), fmt(a[5])[:40], fmt(a[6])[:40]), fn=f, sample="(&sender, &validator, amount)")
-        s = P.call_args(f, sends[0][1], sends[0][0])
-        bm = None
-        for x in [s[5]]:
-            pass
-        okm = contains(s[5], lambda x: x[0] == "agg" and x[1] == "cosmwasm_std::BankMsg::Send" and
-                       contains(dict(x[2])["to_address"], lambda y: y[0] == "field" and y[2] == "module_addr" and is_param(y[1], "self")) and
-                       contains(dict(x[2])["amount"], lambda y: is_param_field(y, "msg", "amount")))
-        ctx.ob(R, EXEC, "Delegate-funds(sender -> pool, same amount)", okm and is_param(s[4], "sender") and is_param(s[2], "storage"),
-               "Delegate moves %s from %s" % (fmt(s[5])[:120], fmt(s[4])), fn=f, sample="BankMsg::Send{to: module_addr, amount: [amount]} from sender")
-        ctx.ob(R, EXEC, "Delegate-stake-recorded-before-funds-move", _succ_dom(P, f, sends[0][0], SK + "add_stake"), "funds move without a successful add_stake", fn=f,
-               sample="router.execute dominated by Continue(add_stake)")
-        for bid, i, st in f.stmts():
-            if st["k"] == "assign" and st["dst"]["l"] == 0 and st["rv"].get("variant") == "Ok" and _arm(P, f, bid) == "Delegate":
-                ctx.ob(R, EXEC, "Delegate-Ok-only-after-funds-moved", _succ_dom(P, f, bid, "app::CosmosRouter::execute"), "Delegate returns Ok without a successful transfer", fn=f,
-                       sample="Ok dominated by Continue(router.execute)")
-    # Undelegate
-    rems = [(b, t) for b, t in q.calls(f, SK + "remove_stake") if _arm(P, f, b) == "Undelegate"]
-    ok = len(rems) == 1
-    ctx.ob(R, EXEC, "Undelegate-shape", ok, "Undelegate must remove stake once", fn=f, sample="1")
-    if ok:
-        a = P.call_args(f, rems[0][1], rems[0][0])
-        ctx.ob(R, EXEC, "Undelegate-remove_stake(sender, validator, amount)", is_param(a[4], "sender") and msgf(a[5], "validator") and msgf(a[6], "amount"),
-               "remove_stake(%s, %s, %s)" % (fmt(a[4]), fmt(a[5])[:40], fmt(a[6])[:40]), fn=f, sample="(&sender, &validator, amount)")
-        ubs = [(b, i, st) for b, i, st in f.stmts() if st["k"] == "assign" and st["rv"].get("k") == "aggregate" and st["rv"].get("adt") == "staking::Unbonding"]
-        ok = len(ubs) == 1
+    if "Delegate" in parts:
+        # Delegate
+        adds = [(b, t) for b, t in q.calls(f, SK + "add_stake") if _arm(P, f, b) == "Delegate"]
+        sends = [(b, t) for b, t in q.calls(f, ("app::CosmosRouter", "execute")) if _arm(P, f, b) == "Delegate"]
+        ok = len(adds) == 1 and len(sends) == 1
+        ctx.ob(R, EXEC, "Delegate-shape", ok, "Delegate must add stake once and move funds once", fn=f, sample="add_stake + router.execute(BankMsg::Send)")
         if ok:
-            b, i, st = ubs[0]
-            d = dict(P.rvalue(f, st["rv"], (b, i))[2])
-            pa = peel(d["payout_at"])
-            ok = is_param(d["delegator"], "sender") and msgf(d["validator"], "validator") and contains(d["amount"], lambda x: x[0] == "field" and x[2] == "amount" and msgf(x[1], "amount")) and \
-                pa[0] == "call" and pa[1].endswith("Timestamp::plus_seconds") and contains(pa[2][0], lambda x: x[0] == "field" and x[2] == "time" and is_param(x[1], "block")) and \
-                contains(pa[2][1], lambda x: x[0] == "field" and x[2] == "unbonding_time")
-            ok = ok and _succ_dom(P, f, b, SK + "remove_stake")
-        ctx.ob(R, EXEC, "Undelegate-queue-entry(sender, validator, amount, block.time+unbonding_time)", ok, "unbonding entry is not (sender, validator, amount.amount, block.time + unbonding_time) after remove_stake",
-               fn=f, sample="Unbonding{delegator: sender, validator, amount: amount.amount, payout_at: block.time + unbonding_time}")
-        pb = [(b, t) for b, t in f.calls() if t["callee"]["key"].endswith("VecDeque::push_back")]
-        sv = store_calls(P, f, QUEUE, ("save",))
-        ok = len(pb) == 1 and len(sv) == 1 and cf.dominates(pb[0][0], sv[0][0]) and peel(P.call_args(f, pb[0][1], pb[0][0])[1])[0] == "agg"
+            a = P.call_args(f, adds[0][1], adds[0][0])
+            ctx.ob(R, EXEC, "Delegate-add_stake(sender, validator, amount)", is_param(a[4], "sender") and msgf(a[5], "validator") and msgf(a[6], "amount"),
+                   "add_stake(%s, %s, %s)" % (fmt(a[4]), fmt(a[5])[:40], fmt(a[6])[:40]), fn=f, sample="(&sender, &validator, amount)")
+            s = P.call_args(f, sends[0][1], sends[0][0])
+            bm = None
+            for x in [s[5]]:
+                pass
+            okm = contains(s[5], lambda x: x[0] == "agg" and x[1] == "cosmwasm_std::BankMsg::Send" and
+                           contains(dict(x[2])["to_address"], lambda y: y[0] == "field" and y[2] == "module_addr" and is_param(y[1], "self")) and
+                           contains(dict(x[2])["amount"], lambda y: is_param_field(y, "msg", "amount")))
+            ctx.ob(R, EXEC, "Delegate-funds(sender -> pool, same amount)", okm and is_param(s[4], "sender") and is_param(s[2], "storage"),
+                   "Delegate moves %s from %s" % (fmt(s[5])[:120], fmt(s[4])), fn=f, sample="BankMsg::Send{to: module_addr, amount: [amount]} from sender")
+            ctx.ob(R, EXEC, "Delegate-stake-recorded-before-funds-move", _succ_dom(P, f, sends[0][0], SK + "add_stake"), "funds move without a successful add_stake", fn=f,
+                   sample="router.execute dominated by Continue(add_stake)")
+            for bid, i, st in f.stmts():
+                if st["k"] == "assign" and st["dst"]["l"] == 0 and st["rv"].get("variant") == "Ok" and _arm(P, f, bid) == "Delegate":
+                    ctx.ob(R, EXEC, "Delegate-Ok-only-after-funds-moved", _succ_dom(P, f, bid, "app::CosmosRouter::execute"), "Delegate returns Ok without a successful transfer", fn=f,
+                           sample="Ok dominated by Continue(router.execute)")
+    if "Undelegate" in parts:
+        # Undelegate
+        rems = [(b, t) for b, t in q.calls(f, SK + "remove_stake") if _arm(P, f, b) == "Undelegate"]
+        ok = len(rems) == 1
+        ctx.ob(R, EXEC, "Undelegate-shape", ok, "Undelegate must remove stake once", fn=f, sample="1")
         if ok:
-            qa = P.call_args(f, sv[0][1], sv[0][0])
-            ok = contains(qa[2], lambda x: x[0] == "call" and x[1] == "cw_storage_plus::Item::may_load")
-        ctx.ob(R, EXEC, "Undelegate-entry-appended-and-saved", ok, "the unbonding entry is not appended at the back of the loaded queue and saved", fn=f,
-               sample="queue.push_back(entry); UNBONDING_QUEUE.save(queue)")
-    # Redelegate
-    rems = [(b, t) for b, t in q.calls(f, SK + "remove_stake") if _arm(P, f, b) == "Redelegate"]
-    adds = [(b, t) for b, t in q.calls(f, SK + "add_stake") if _arm(P, f, b) == "Redelegate"]
-    ok = len(rems) == 1 and len(adds) == 1
-    ctx.ob(R, EXEC, "Redelegate-shape", ok, "Redelegate must remove once and add once", fn=f, sample="1/1")
-    if ok:
-        ra, aa = P.call_args(f, rems[0][1], rems[0][0]), P.call_args(f, adds[0][1], adds[0][0])
-        ok = is_param(ra[4], "sender") and is_param(aa[4], "sender") and msgf(ra[5], "src_validator") and msgf(aa[5], "dst_validator") and \
-            msgf(ra[6], "amount") and msgf(aa[6], "amount") and _succ_dom(P, f, adds[0][0], SK + "remove_stake")
-        ctx.ob(R, EXEC, "Redelegate(src -> dst, same amount, remove first)", ok, "Redelegate does not move the same amount from src to dst after a successful removal", fn=f,
-               sample="remove_stake(src, amount)? then add_stake(dst, amount)")
+            a = P.call_args(f, rems[0][1], rems[0][0])
+            ctx.ob(R, EXEC, "Undelegate-remove_stake(sender, validator, amount)", is_param(a[4], "sender") and msgf(a[5], "validator") and msgf(a[6], "amount"),
+                   "remove_stake(%s, %s, %s)" % (fmt(a[4]), fmt(a[5])[:40], fmt(a[6])[:40]), fn=f, sample="(&sender, &validator, amount)")
+            ubs = [(b, i, st) for b, i, st in f.stmts() if st["k"] == "assign" and st["rv"].get("k") == "aggregate" and st["rv"].get("adt") == "staking::Unbonding"]
+            ok = len(ubs) == 1
+            if ok:
+                b, i, st = ubs[0]
+                d = dict(P.rvalue(f, st["rv"], (b, i))[2])
+                pa = peel(d["payout_at"])
+                ok = is_param(d["delegator"], "sender") and msgf(d["validator"], "validator") and contains(d["amount"], lambda x: x[0] == "field" and x[2] == "amount" and msgf(x[1], "amount")) and \
+                    pa[0] == "call" and pa[1].endswith("Timestamp::plus_seconds") and contains(pa[2][0], lambda x: x[0] == "field" and x[2] == "time" and is_param(x[1], "block")) and \
+                    contains(pa[2][1], lambda x: x[0] == "field" and x[2] == "unbonding_time")
+                ok = ok and _succ_dom(P, f, b, SK + "remove_stake")
+            ctx.ob(R, EXEC, "Undelegate-queue-entry(sender, validator, amount, block.time+unbonding_time)", ok, "unbonding entry is not (sender, validator, amount.amount, block.time + unbonding_time) after remove_stake",
+                   fn=f, sample="Unbonding{delegator: sender, validator, amount: amount.amount, payout_at: block.time + unbonding_time}")
+            pb = [(b, t) for b, t in f.calls() if t["callee"]["key"].endswith("VecDeque::push_back")]
+            sv = store_calls(P, f, QUEUE, ("save",))
+            ok = len(pb) == 1 and len(sv) == 1 and cf.dominates(pb[0][0], sv[0][0]) and peel(P.call_args(f, pb[0][1], pb[0][0])[1])[0] == "agg"
+            if ok:
+                qa = P.call_args(f, sv[0][1], sv[0][0])
+                ok = contains(qa[2], lambda x: x[0] == "call" and x[1] == "cw_storage_plus::Item::may_load")
+            ctx.ob(R, EXEC, "Undelegate-entry-appended-and-saved", ok, "the unbonding entry is not appended at the back of the loaded queue and saved", fn=f,
+                   sample="queue.push_back(entry); UNBONDING_QUEUE.save(queue)")
+    if "Redelegate" in parts:
+        # Redelegate
+        rems = [(b, t) for b, t in q.calls(f, SK + "remove_stake") if _arm(P, f, b) == "Redelegate"]
+        adds = [(b, t) for b, t in q.calls(f, SK + "add_stake") if _arm(P, f, b) == "Redelegate"]
+        ok = len(rems) == 1 and len(adds) == 1
+        ctx.ob(R, EXEC, "Redelegate-shape", ok, "Redelegate must remove once and add once", fn=f, sample="1/1")
+        if ok:
+            ra, aa = P.call_args(f, rems[0][1], rems[0][0]), P.call_args(f, adds[0][1], adds[0][0])
+            ok = is_param(ra[4], "sender") and is_param(aa[4], "sender") and msgf(ra[5], "src_validator") and msgf(aa[5], "dst_validator") and \
+                msgf(ra[6], "amount") and msgf(aa[6], "amount") and _succ_dom(P, f, adds[0][0], SK + "remove_stake")
+            ctx.ob(R, EXEC, "Redelegate(src -> dst, same amount, remove first)", ok, "Redelegate does not move the same amount from src to dst after a successful removal", fn=f,
+                   sample="remove_stake(src, amount)? then add_stake(dst, amount)")
 
 
 def r5(ctx, cfg):
